@@ -106,6 +106,12 @@ class MetadataManager:
                             self.HINT_PATH, metadata_file.encode("utf-8"), etag=None
                         )
                     except CASConflictError as e:
+                        # Lost the race: the hint names a table. Unless that table is
+                        # the one written here (a re-sent create answered 412, or a
+                        # commit already built on this v0), this v0 is a second
+                        # identity that hint recovery would adopt once the hint is lost.
+                        if not self._is_table_in_effect(metadata):
+                            self._discard_unpublished_metadata(metadata_path)
                         raise TableExistsError(
                             f"Table at {self.table_path} was concurrently initialized"
                         ) from e
@@ -381,6 +387,15 @@ class MetadataManager:
             self.storage.delete_file(metadata_path)
         except Exception as e:
             logger.warning(f"Failed to remove unpublished metadata file {metadata_path}: {e}")
+
+    def _is_table_in_effect(self, metadata: TableMetadata) -> bool:
+        """False only when the table currently resolved is verifiably another
+        table than `metadata` describes (different table_uuid)."""
+        try:
+            current = self.refresh()
+        except Exception:
+            return True
+        return current is None or current.table_uuid == metadata.table_uuid
 
     def _release_lock_safely(self) -> None:
         """Release the distributed lock without ever raising."""
